@@ -141,6 +141,76 @@ def run(rep):
                           f'{k} bounds/total_bounds differ from the proven model',
                           {**metas[i], 'buffers': cases[i], 'impl': ress[i], 'model': model})
     rep.extra['agreement_checks'] = nagree
+    large_arrays(rep)
+
+
+def large_arrays(rep):
+    """Arrays far larger than the kernel-evaluated cases (block-wise or parallel reductions
+    only show at size): the relations the theorems give between the quantities must hold -
+    total_bounds = union of the bounds rows (C13_total / C13_rows_in_total), the projections
+    agree (C13_total_proj), and the numbers equal a plain numpy reduction over the finite
+    coordinates of the non-missing elements."""
+    import pyarrow as pa
+    rng = np.random.default_rng(rep.seed)
+    nbig = 0
+    for kind in ('multipoint', 'line', 'multiline', 'polygon', 'point'):
+        for nvert in (70001, 131075, 262147 if rep.tier_run == 'thorough' else 65599):
+            xy = rng.integers(-1000, 1000, size=(nvert, 2)).astype('float64')
+            # the extremes sit among the very last vertices and at the very first
+            xy[-1] = (5000, -7000); xy[-2] = (-6000, 8000); xy[0] = (4000, 4000)
+            xy[nvert // 2] = (np.nan, 9000)          # finite in one coordinate only
+            flat = xy.ravel()
+            cls = G.array_class(kind)
+            if kind == 'point':
+                arr = cls(flat)
+                nel = nvert
+            else:
+                # ragged elements: element i has (i % 7) + 1 vertices; the tail goes to the last
+                sizes = []
+                left = nvert
+                i = 0
+                while left > 0:
+                    k = min(left, (i % 7) + 1); sizes.append(k); left -= k; i += 1
+                offs = np.concatenate([[0], np.cumsum(sizes)]).astype('int32') * 2
+                inner = pa.ListArray.from_arrays(pa.array(offs), pa.array(flat))
+                lev = G.LEVELS[kind]
+                data = inner
+                for _ in range(lev - 1):
+                    n = len(data)
+                    grp = np.arange(0, n + 1, 1, dtype='int32')
+                    data = pa.ListArray.from_arrays(pa.array(grp), data)
+                arr = cls(data)
+                nel = len(arr)
+            meta = {'kind': kind, 'large': True, 'vertices': int(nvert), 'elements': int(nel)}
+            for view, name in ((arr, 'whole'), (arr[3:], 'slice[3:]'), (arr[:-1], 'slice[:-1]')):
+                b = np.asarray(view.bounds, dtype=float)
+                tb = np.asarray(view.total_bounds, dtype=float)
+                tx = np.asarray(view.total_bounds_x, dtype=float)
+                ty = np.asarray(view.total_bounds_y, dtype=float)
+                with np.errstate(all='ignore'):
+                    import warnings
+                    with warnings.catch_warnings():
+                        warnings.simplefilter('ignore')
+                        union = np.array([np.nanmin(b[:, 0]), np.nanmin(b[:, 1]),
+                                          np.nanmax(b[:, 2]), np.nanmax(b[:, 3])])
+                ok = _same(tb, union) and _same(tx, tb[[0, 2]]) and _same(ty, tb[[1, 3]])
+                if name == 'whole':
+                    fin = xy
+                    ref = np.array([np.nanmin(fin[:, 0]), np.nanmin(fin[:, 1]),
+                                    np.nanmax(fin[:, 0]), np.nanmax(fin[:, 1])])
+                    ok = ok and _same(tb, ref)
+                rep.evaluations += 1
+                nbig += 1
+                rep.count('large:' + kind)
+                rep.nontrivial(('large', kind, nvert, name))
+                if not ok:
+                    rep.violation(f'large-total-bounds:{kind}',
+                                  f'{kind} total_bounds of a large array ({nvert} vertices, {name}) is not '
+                                  'the union of its bounds rows / its projections / the numpy reduction',
+                                  {**meta, 'view': name, 'total_bounds': tb.tolist(), 'union_of_rows': union.tolist(),
+                                   'total_bounds_x': tx.tolist(), 'total_bounds_y': ty.tolist(),
+                                   'repro': 'harness/c13.py large_arrays (seeded)'})
+    rep.extra['large_arrays'] = nbig
 
 
 def _same(a, b):
@@ -188,6 +258,10 @@ def agree(rep, arr, meta):
 
 
 def replay(rep, rp):
+    if rp.get('large'):
+        rep.tier_run = 'quick'
+        large_arrays(rep)
+        return not rep.violations
     kind, st = rp['kind'], rp['subtype']
 
     def un(e):
